@@ -39,7 +39,7 @@ STYLES = {
 # a representative file extension per style name (documented mapping)
 EXT_FOR_STYLE = {
     "applescript": ".applescript", "aspx": ".aspx", "bat": ".bat", "bibtex": ".bib", "c": ".c",
-    "cpp": ".cpp", "cppsingle": ".rs", "f": ".f", "f90": ".f90", "ftl": ".ftl", "handlebars": ".hbs",
+    "cpp": ".cpp", "cppsingle": ".zig", "f": ".f", "f90": ".f90", "ftl": ".ftl", "handlebars": ".hbs",
     "haskell": ".hs", "html": ".html", "jinja": ".jinja", "julia": ".jl", "lisp": ".lisp", "m4": ".m4",
     "man": ".man", "ml": ".ml", "plantuml": ".puml", "python": ".py", "rst": ".rst", "semicolon": ".ini",
     "tex": ".tex", "vim": ".vim", "vst": ".vm", "xquery": ".xq",
